@@ -34,6 +34,7 @@ def dispatchSpec (T : Tables Float) (fn : String) (a : Array String) : Option St
   | "spec.AtomicLevelWidth", 2 => some (fmtE (Spec.AtomicLevelWidth T (pI a[0]!) (pI a[1]!)))
   | "spec.CosKronTransProb", 2 => some (fmtE (Spec.CosKronTransProb T (pI a[0]!) (pI a[1]!)))
   | "spec.ElectronConfig", 2 => some (fmtE (Spec.ElectronConfig T (pI a[0]!) (pI a[1]!)))
+  | "spec.ElectronConfig_Biggs", 2 => some (fmtE (Spec.ElectronConfig_Biggs T (pI a[0]!) (pI a[1]!)))
   | "spec.AugerRate", 2 => some (fmtE (Spec.AugerRate T (pI a[0]!) (pI a[1]!)))
   | "spec.AugerYield", 2 => some (fmtE (Spec.AugerYield T (pI a[0]!) (pI a[1]!)))
   | "spec.CS_Photo", 2 => some (fmtE (Spec.CS_Photo T (pI a[0]!) (pF a[1]!)))
